@@ -761,6 +761,16 @@ def run(ck) -> None:
         for fn in sorted(os.listdir(corpus_dir)):
             with open(os.path.join(corpus_dir, fn)) as f:
                 cfgs.append(json.load(f))
+    # witnesses of findings repaired upstream run as ordinary cases: a recurrence is a VIOLATION
+    for k in ck._known:
+        w = k.get("witness")
+        if k.get("status") == "fixed" and isinstance(w, dict) and "inits" in w and "threshold" in w:
+            c = json.loads(json.dumps(w))
+            for key, val in (("max_shard", None), ("alignment", None), ("align_threshold", 0), ("max_workers", None),
+                             ("backend", "raw"), ("naming", "m.data"), ("fail_at", None), ("resave", None),
+                             ("tseed", 1), ("mname", "model.onnx")):
+                c.setdefault(key, val)
+            cfgs.append(c)
     for i in range(n_cases):
         focus = {1: "aligned-shards", 2: "resave", 3: "presave"}.get(i % 5)
         cfgs.append(gen_config(ck.rng, small=(i % 3 == 0), focus=focus))
